@@ -450,7 +450,9 @@ package main
 // written to the cache or handed to the store stays within JRWPA and keeps A.
 //@ func initTopicP2P(t *Topic, sreg *ClientComMessage) (err error)
 //@   requires t != nil && sreg != nil && sreg.Sub != nil && t.perUser != nil
+//@   requires [C01] old(t.lastID) == 0 && rowMax[t.name] <= hwm[t.name]
 //@   modifies inferred
+//@   ensures [C01] lastID_restored: err == nil ==> t.lastID == hwm[t.name] && rowMax[t.name] <= t.lastID
 //@   assert at call store.TopicsPersistenceInterface.CreateP2P [C07] peer_given_p2p: ($2.ModeGiven & ^types.ModeCP2P) == 0 && ($2.ModeGiven & types.ModeApprove) != 0 && ($2.ModeWant & ^types.ModeCP2P) == 0 && ($2.ModeWant & types.ModeApprove) != 0
 //@   assert at call store.TopicsPersistenceInterface.CreateP2P [C07] requester_want_p2p: ($1.ModeWant & ^types.ModeCP2P) == 0 && ($1.ModeWant & types.ModeApprove) != 0
 //@   assert at call store.TopicsPersistenceInterface.CreateP2P [C07] requester_given_p2p: ($1.ModeGiven & ^types.ModeCP2P) == 0
